@@ -341,3 +341,46 @@ def lc1_unsubscribe_sites(ctx, rep):
         where_ok = s.body.path in retain_preds or (s.body.path, s.bb) in gnodes
         rep.check(where_ok, R, "unsubscribe-site:" + short(s.body.path), s.where, "on_unsubscribe called from the unsubscribe predicate / shutdown release", "on_unsubscribe called from %s: a third release path" % short(s.body.path))
     rep.floor(R, "on_unsubscribe call sites", n, 3)
+
+
+def lc3_release_under_list_lock(ctx, rep):
+    """every on_unsubscribe call (from unsubscribe handles and from the shutdown release) runs
+    with the subscriber-list lock held in its calling context, so removal + release are atomic
+    with respect to the shutdown release"""
+    R = "LC3"
+    from rules.deadlock import _ra
+    from mirq.supergraph import Super
+    from mirq.program import Site
+    A = ctx.A
+    ra = _ra(ctx)
+    lock = A.lock_id(A.f_subscribers)
+    roots = []
+    for b in ctx.impls_of("Subscription", "unsubscribe"):
+        roots.append(b)
+    roots.append(A.reducer_closure[0])
+    n = 0
+    seen = set()
+    for root in roots:
+        G = Super(ctx.prog, root, max_depth=10, inline=lambda s, c: A.metric_call(s) is None, virtual_targets=ra.targets)
+        for k, nd in G.nodes.items():
+            t = nd.body.blocks[nd.bb]["term"]
+            if t["k"] != "call":
+                continue
+            s = Site(nd.body, nd.bb, t)
+            if A.event(s) != "UNSUB":
+                continue
+            held = ra._held(G, k)
+            # must-held: intersect over worlds at the site and its chain
+            may, must = ctx.lr(nd.body).held_at(nd.bb)
+            must = set(must)
+            for cs in k[0]:
+                cb = ctx.prog.by_path[cs[0]]
+                m1, m2 = ctx.lr(cb).held_at(cs[1])
+                must |= m2
+            key = "release-under-list-lock:%s:from:%s" % (short(nd.body.path), short(root.path))
+            if key in seen:
+                continue
+            seen.add(key)
+            n += 1
+            rep.check(lock in must, R, key, s.where, "on_unsubscribe runs with %s held" % lock, "on_unsubscribe runs after %s was released: a concurrent shutdown release no longer waits for it (and may miss the subscriber)" % lock)
+    rep.floor(R, "on_unsubscribe sites in context", n, 2)
